@@ -200,6 +200,7 @@ def main(argv=None):
     nontrivial_hashes = set()
     samples = []
     incon: dict = {}
+    incon_examples: list = []
     classes: dict = {}
     viols = []
     evaluations = 0
@@ -219,6 +220,9 @@ def main(argv=None):
         if r.get("inconclusive"):
             reason = str(r["inconclusive"]).split(":")[0]
             incon[reason] = incon.get(reason, 0) + 1
+            if len(incon_examples) < 6:
+                cc = r.get("_case") or {}
+                incon_examples.append({"id": cc.get("id"), "cls": cc.get("cls"), "mode": cc.get("mode"), "why": str(r["inconclusive"])[:160], "history": cc.get("history")})
         c = r.get("_case") or {}
         cl = c.get("cls") or (c.get("net") or {}).get("cls") or "?"
         cl = cl.split(":")[0]
@@ -280,6 +284,7 @@ def main(argv=None):
                 "monitor_maxima": dict(sorted(mx.items())),
                 "input_classes": dict(sorted(classes.items())),
                 "inconclusive_cases": incon,
+                "inconclusive_examples": incon_examples,
                 "known_findings_seen": {k: n for k, (_, n) in known_hits.items()},
                 "unlisted_violations": unlisted,
                 "verdict": "violated" if unlisted else ("inconclusive" if reasons else "held-on-observed"),
@@ -305,6 +310,8 @@ def main(argv=None):
         print("   maxima: " + ", ".join(f"{k}={mx[k]}" for k in sorted(mx)))
     if incon:
         print(f"   inconclusive: {incon}")
+        for ex in incon_examples[:4]:
+            print(f"     e.g. {ex}")
     if unlisted:
         return 1
     if reasons:
